@@ -37,6 +37,7 @@ func (c *hctx) cellSel(v *ast.SelectorExpr) *hstruct {
 // scanHeap: which heap the function touches, and whether it changes it
 func (c *hctx) scanHeap() {
 	fn, g := c.fn, c.g
+	c.scanEptr()
 	note := func(t types.Type) {
 		if fn.cell != "" || t == nil {
 			return
@@ -90,6 +91,18 @@ func (c *hctx) scanHeap() {
 				touch(cs, namedOf(g.info.Selections[v].Recv()))
 				if lhs[v] {
 					fn.writesHeap = true
+				}
+			}
+			if lhs[v] && c.eptrIdent(v.X) {
+				fn.writesHeap = true // a store through a pointer into a slice field of a cell
+			}
+		case *ast.CompositeLit:
+			if tv, ok := g.info.Types[v]; ok {
+				if _, isPtr := types.Unalias(tv.Type).(*types.Pointer); isPtr { // an element {...} of a []*S literal: &S{...}
+					note(tv.Type)
+					if ht := g.typeOf(tv.Type, nil); ht != nil && ht.k == "hptr" {
+						fn.readsHeap, fn.writesHeap = true, true
+					}
 				}
 			}
 		case *ast.CallExpr:
@@ -484,6 +497,9 @@ func (c *hctx) expr(e ast.Expr, pre *[]hbind) (string, *hty) {
 			}
 		}
 		if x := c.lookup(v); x != nil {
+			if x.typ.k == "eptr" {
+				c.lostAt(v, "element pointer %s used as a value (only p.f, p.f = e and re-binding)", x.name)
+			}
 			return x.name, x.typ
 		}
 		if c.isRecvIdent(v) {
@@ -512,6 +528,9 @@ func (c *hctx) expr(e ast.Expr, pre *[]hbind) (string, *hty) {
 				fts := c.fieldTypes(rt)
 				i := fieldIdx(cs, v.Sel.Name)
 				return "(" + cs.name + "_" + v.Sel.Name + " " + tm + ")", fts[i]
+			}
+			if ep := c.eptrVar(v.X); ep != nil {
+				return c.eptrRead(ep, v, pre)
 			}
 			x, t := c.expr(v.X, pre)
 			if t.k == "struct" {
@@ -563,6 +582,12 @@ func (c *hctx) expr(e ast.Expr, pre *[]hbind) (string, *hty) {
 		return vals[0], ts[0]
 	case *ast.CompositeLit:
 		t := c.typeOfExpr(v)
+		if t.k == "hptr" && t.st.cell {
+			// an element {...} of a []*S literal: &S{...}, an allocation
+			rt := c.cellRecordType(t)
+			rec := c.structLit(v, rt, pre)
+			return c.alloc(v, rec, pre), t
+		}
 		if t.k == "struct" {
 			c.useStruct(t.st, v)
 			return c.structLit(v, t, pre), t
@@ -717,6 +742,12 @@ func (c *hctx) binary(v *ast.BinaryExpr, pre *[]hbind) (string, *hty) {
 	if xt.untyped && yt.untyped {
 		rt = htUnt
 	}
+	if num && (xt.name == "byte" || yt.name == "byte") {
+		switch v.Op {
+		case token.ADD, token.SUB, token.MUL, token.QUO, token.REM:
+			c.lostAt(v, "arithmetic on byte values")
+		}
+	}
 	switch v.Op {
 	case token.ADD, token.SUB, token.MUL:
 		if !num {
@@ -841,13 +872,16 @@ func (c *hctx) call(v *ast.CallExpr, pre *[]hbind, want []string) ([]string, []*
 	if tv, ok := g.info.Types[v.Fun]; ok && tv.IsType() && len(v.Args) == 1 {
 		to := g.typeOf(tv.Type, v)
 		x, t := c.expr(v.Args[0], pre)
-		if to != nil && to.k == "int" && t.k == "int" {
-			return one(x, htInt)
+		if to != nil && to.k == "int" && t.k == "int" && to.name == t.name {
+			return one(x, to)
 		}
 		c.lostAt(v, "conversion %s", src(v))
 	}
 	if cal := g.calleeOf(v.Fun); cal != nil {
 		return c.callTranslated(cal, v.Fun, v.Args, v.Ellipsis.IsValid(), nil, v, pre, want)
+	}
+	if vals, ts, ok := c.callPkg(v, pre); ok {
+		return vals, ts
 	}
 	switch f := ast.Unparen(v.Fun).(type) {
 	case *ast.Ident:
@@ -935,6 +969,7 @@ func (c *hctx) callValue(x *hvar, v *ast.CallExpr, pre *[]hbind) ([]string, []*h
 		pat := append([]string{}, ts...)
 		if t.shape.writesHeap {
 			pat = append(pat, c.heap.name)
+			c.epKillAll()
 		}
 		p := tuple(pat)
 		if len(pat) == 0 {
@@ -1126,6 +1161,12 @@ func (c *hctx) callTranslated(cal *hfunc, fun ast.Expr, args []ast.Expr, ellipsi
 	if litReadsHeap && cal.writesHeap {
 		c.lostAt(at, "function literal that reads the heap handed to %s, which changes the heap", cal.name)
 	}
+	for _, e := range cal.externs {
+		if cal == c.fn {
+			c.lostAt(at, "recursive call of a function that calls extern functions")
+		}
+		s += " " + c.externVar(e.key, e.v.typ, at).name
+	}
 	if cal.readsHeap {
 		s += " " + c.needHeap(at)
 	}
@@ -1178,6 +1219,7 @@ func (c *hctx) callTranslated(cal *hfunc, fun ast.Expr, args []ast.Expr, ellipsi
 	if cal.writesHeap {
 		pat = append(pat, c.heap.name)
 		effect = true
+		c.epKillAll() // the callee may assign any cell's fields
 	}
 	p := tuple(pat)
 	if len(pat) == 0 {
